@@ -40,7 +40,7 @@ type ListFault struct {
 //	Kind: "" follow forever | "error" connect error | "expired" connect error 410 Gone (StatusError) | "block" connect blocks until ctx cancelled |
 //	      "close" close the stream after After frames | "drop" silently drop frame number After (0-based) |
 //	      "dup" deliver frame number After twice | "status" insert a Status frame before frame After |
-//	      "bookmark" insert a Bookmark frame before frame After | "errorframe" insert an Error frame (Status object) before frame After | "errorframe-obj" / "errorframe-nil" Error frame with an ordinary object / no payload |
+//	      "bookmark" insert a Bookmark frame before frame After | "bookmark+close" a Bookmark frame at the version of the last frame sent, then the stream closes, before frame After | "errorframe" insert an Error frame (Status object) before frame After | "errorframe-obj" / "errorframe-nil" Error frame with an ordinary object / no payload |
 //	      "stale-delete" the stream starts by replaying a DELETED frame for an object that exists (lagging watch cache) |
 //	      "garbage" insert a frame whose object has no metadata before frame After (ends the session)
 type WatchFault struct {
@@ -78,6 +78,8 @@ type Server struct {
 	StaleAtList []int
 	Inflight    int
 	MaxFlight   int
+	// OnListReturn, when set, runs just before the n-th list call returns its (good) answer.
+	OnListReturn func(n int)
 }
 
 func New() *Server {
@@ -301,6 +303,9 @@ func (s *Server) List(ctx context.Context, opts metav1.ListOptions) (runtime.Obj
 	case "noaccessor":
 		return &notAList{}, nil
 	}
+	if s.OnListReturn != nil {
+		s.OnListReturn(n)
+	}
 	return snap, nil
 }
 
@@ -446,6 +451,10 @@ func (st *stream) pump() {
 					if !st.send(watch.Event{Type: watch.Bookmark, Object: pod("", "", e.rv, nil)}) {
 						return
 					}
+				case "bookmark+close":
+					// a bookmark at the version of the last frame sent, then the stream ends
+					st.send(watch.Event{Type: watch.Bookmark, Object: pod("", "", st.cursor, nil)})
+					return
 				case "errorframe":
 					if !st.send(watch.Event{Type: watch.Error, Object: &metav1.Status{Status: "Failure", Message: "injected", Code: 410}}) {
 						return
